@@ -14,7 +14,7 @@ fn any_len(lmax: usize) -> usize {
 }
 
 fn info(len: usize, ends: u8) -> KindInfo {
-    KindInfo { len, sized: true, nmax: len + 2, ops: 0, ends, nbuf: 0 }
+    KindInfo { len, sized: true, nmax: len + 2, ops: 0, ends, nbuf: 0, lying: false }
 }
 
 const S_CHUNK: &[u16] = &[M_CHUNK, M_SINGLE | M_LEN];
